@@ -987,8 +987,9 @@ class ModelGen:
 
     make() -> case dict {text, name, points:[{name:[q,...]}], ranges:{idx:[a,s,b]}, stream, features}"""
 
-    def __init__(self, rng, npoints=3, count=None, loops=None, functions=None, delay=False):
+    def __init__(self, rng, npoints=3, count=None, loops=None, functions=None, delay=False, twin_calls=0.3):
         self.ranges = {}
+        self.twin_calls = twin_calls
         self.rng = rng
         self.np = npoints
         self.count = count or (lambda k: None)
@@ -1342,7 +1343,32 @@ class ModelGen:
             for f in forms(C):
                 bsc.atoms["gen"].append("%s[%d,%s]" % (m, r.randint(1, R), f))
         body = []
-        for _ in range(r.randint(1, 2)):
+        # the same user function called several times in one loop body on the same array with different
+        # subscript expressions of the loop index (their loop symbols print alike: `x[i]`)
+        if bsc.funcs and r.random() < self.twin_calls:
+            fname, nin, _ = self.eg.pick(bsc.funcs)
+            cands = [(w, forms(Lw)) for (w, Lw, _) in arrays if len(forms(Lw)) >= 2]
+            if cands:
+                w, fs = self.eg.pick(cands)
+                fs = list(fs)
+                r.shuffle(fs)
+                k = min(len(fs), r.randint(2, 3))
+                rest = [self.eg.pick(sc.any_atoms() or ["1"]) for _ in range(nin - 1)]
+                pos = r.randrange(nin)
+                calls = []
+                for f_ in fs[:k]:
+                    args = list(rest)
+                    args.insert(pos, "%s[%s]" % (w, f_))
+                    calls.append(mk("%s(%s)" % (fname, ", ".join(args))))
+                e = calls[0]
+                for c in calls[1:]:
+                    e = binop(self.eg.pick(["-", "+"]), e, binop("*", mk(self.eg.pick(["2", "3", "5"])), c))
+                tw, tL, _ = self.eg.pick(arrays)
+                tf = forms(tL)
+                if tf:
+                    body.append("    %s[%s] = %s;" % (tw, self.eg.pick(tf), e))
+                    self.count("for:twin-calls-%d" % k)
+        for _ in range(r.randint(0 if body else 1, 2)):
             w, Lw, stw = self.eg.pick(arrays)
             fs = forms(Lw)
             if not fs:
